@@ -543,7 +543,10 @@ impl Empty for AdjacencyMatrix {
     fn empty(order: usize) -> Self {
         assert!(order > 0, "a digraph has at least one vertex");
 
-        let n = (order * order).div_ceil(64);
+        let n = order
+            .checked_mul(order)
+            .expect("a matrix has at most `usize::MAX` cells")
+            .div_ceil(64);
 
         Self {
             blocks: vec![0; n],
